@@ -1054,6 +1054,12 @@ func (fr *Frame) step(st *State, in ssa.Instruction) {
 			fr.v.emit(fr, st, "nonblocking", "nonblocking", Lt(ln, UF("chancap", SInt, h)), "channel send cannot block: buffered length < capacity")
 		}
 		st.ghost["chanlen:"+h.String()] = Scalar{Add(ln, Int(1))}
+		if os.Getenv("GOVC_DEBUG") == "chan" {
+			fmt.Fprintf(os.Stderr, "send key chanlen:%s (dry %v)\n", h, fr.dry != nil)
+		}
+		if fr.dry != nil {
+			fr.dry.ghosts["chanlen:"+h.String()] = true // a loop that sends changes the buffered length
+		}
 		fr.v.note("channel send: blocking is an obligation only in functions marked nonblocking: " + fr.fn.String())
 	default:
 		fail("%s: unsupported instruction %T: %s", fr.fn, in, in)
@@ -1636,6 +1642,16 @@ func (fr *Frame) doSelect(st *State, x *ssa.Select, b *ssa.BasicBlock, i int) {
 		}
 		if idx >= 0 {
 			f2.v.selectHook(f2, st2, x, idx)
+			if sel := x.States[idx]; sel.Dir == types.SendOnly {
+				// the chosen case is a send: the channel's buffered length grows by one
+				if ch, ok := f2.get(st2, sel.Chan).(Chan); ok {
+					h := st2.norm(ch.H)
+					st2.ghost["chanlen:"+h.String()] = Scalar{Add(st2.chanLen(h), Int(1))}
+					if f2.dry != nil {
+						f2.dry.ghosts["chanlen:"+h.String()] = true
+					}
+				}
+			}
 		}
 		f2.regs[x] = res
 		f2.exec(st2, b, i+1)
